@@ -30,7 +30,8 @@ DIMS = OrderedDict([
     ("nv", [8, 6, 12]),                       # orders are admissible only below the number of sampled volumes (canon drops the rest)
     ("weights", ["increasing", "equal", "int", "scaled"]),
     ("qorder", [3, 4, 5]),                    # order of the QHA layer's own finite-strain fit
-    ("pve", ["f", "E", "plus"]),              # number format of the P= V= E= volume headers of the phonon file
+    ("pve", ["f", "E", "plus"]),
+    ("static_nv", [None, 4, 5, 12]),          # rows of the static table (its own volumes); 4 is the smallest that determines the cubic fit              # number format of the P= V= E= volume headers of the phonon file
     ("pgrid", ["p2", "pfrac", "at-limit"]),     # at-limit: the largest NTV whose top pressure is still inside the computed range (within one DELTA_P of its end)
 ])
 PGRIDS = {"p2": dict(NTV=31, DELTA_P=2.0, DELTA_P_SAMPLE=2.0), "pfrac": dict(NTV=27, DELTA_P=0.75, DELTA_P_SAMPLE=2.25, P_MIN=-1.5)}
@@ -42,7 +43,7 @@ def run_case(case):
     method, order = case["method"]
     spec = dict(nv=case.get("nv", 8), nq=case["shape"][0], na=case["shape"][1], lattice=case["lattice"],
                 system=case["system"], compset=case["compset"], static="generic", weights=case.get("weights", "increasing"), wset=case["wset"],
-                interpolator=method, order=order, pve=case.get("pve", "f"))
+                interpolator=method, order=order, pve=case.get("pve", "f"), static_nv=case.get("static_nv"))
     spec["qha"] = dict(TGRIDS[case["tgrid"]], **PGRIDS["p2" if case.get("pgrid") == "at-limit" else case.get("pgrid", "p2")], order=case.get("qorder", 3))
     synth.VOLUME_SETS.setdefault(8, [320.0, 308.0, 296.0, 284.0, 272.0, 260.0, 248.0, 236.0])
     viol = []
